@@ -180,6 +180,12 @@ def run(chk):
                     chk.violation("%s.%s-changed-by-a-query" % (nm, n), dict(desc, before=None if before[n][0] != "ok" else before[n][1].tolist(),
                                                                            after=None if st2 != "ok" else v2.tolist()))
                     break
+        # ... and whatever was ASSIGNED to it before: after an assignment to a size property (area, volume, perimeter, the radii of its
+        # bounding / bounded balls, ...) the shape is the one with all axes scaled by the factor that realises the target, and every measure
+        # is the closed form of that shape (compared with a freshly constructed one; the exponent of each property is measured on fresh shapes)
+        if len({a, b, c}) == 3 and max(a, b, c) / min(a, b, c) < 100 and chk.hist.get("after-assignment:shapes", 0) < (5 if chk.tier == "quick" else 60):
+            chk.count("after-assignment:shapes")
+            after_assignment(chk, coxeter, a, b, c, cen, desc)
         # the centre given as integers (tuple of ints / integer array) means the same centre as the float array
         ci = [int(round(x)) for x in cen[:3]]
         if any(ci):
@@ -224,6 +230,45 @@ def run(chk):
     if not okcert:
         chk.violation("ellipse.perimeter-interval", dict(what="Coq Interval could not certify |arc-length integral - implementation| <= 1e-9 rel", log=log[-1500:],
                                                           samples=interval_samples), no_input=True)
+
+
+def after_assignment(chk, coxeter, a, b, c, cen, desc):
+    from .. import shapes as Z
+    S = coxeter.shapes
+    mk = {"circle": lambda s: S.Circle(a * s, cen.copy()), "ellipse": lambda s: S.Ellipse(a * s, b * s, cen.copy()),
+          "sphere": lambda s: S.Sphere(a * s, cen.copy()), "ellipsoid": lambda s: S.Ellipsoid(a * s, b * s, c * s, cen.copy())}
+    names = ("area", "volume", "perimeter", "surface_area", "centroid", "polar_moment_inertia", "inertia_tensor", "iq", "eccentricity")
+    for nm, f in mk.items():
+        base = f(1.0)
+        for prop in Z.settable_properties(base):
+            if prop in ("centroid", "center", "a", "b", "c"):
+                continue
+            st, cur = C.excname(lambda: float(getattr(base, prop)))
+            st2, dbl = C.excname(lambda: float(getattr(f(2.0), prop)))
+            if st != "ok" or st2 != "ok" or not cur > 0 or not dbl > 0:
+                continue
+            d = int(round(math.log2(dbl / cur)))
+            if d not in (1, 2, 3) or abs(dbl / cur - 2.0 ** d) > 1e-9 * 2.0 ** d:
+                continue
+            tgt = cur * 2.5
+            obj, ref = f(1.0), f(2.5 ** (1.0 / d))
+            for n in names:          # (asked for before the assignment as well)
+                C.excname(getattr, obj, n)
+            st3, _ = C.excname(setattr, obj, prop, tgt)
+            if st3 != "ok":
+                chk.count("after-assignment:setter-raised(not judged here)")
+                continue
+            chk.count("after-assignment")
+            for n in (prop,) + names:
+                if not hasattr(type(obj), n):
+                    continue
+                (sa, x), (sb, y) = C.excname(lambda: np.asarray(getattr(obj, n), float)), C.excname(lambda: np.asarray(getattr(ref, n), float))
+                if sb != "ok":
+                    continue
+                if sa != "ok" or x.shape != y.shape or not np.allclose(x, y, rtol=1e-9, atol=1e-9 * float(np.max(np.abs(y))) + 1e-300):
+                    chk.violation("%s.%s-after-assigning-%s" % (nm, n, prop), dict(desc, assigned=tgt, was=cur, impl=None if sa != "ok" else x.tolist(),
+                                                                                  shape_with_that_value=y.tolist(), outcome=sa))
+                    break
 
 
 def interval_certify(samples):
